@@ -102,6 +102,13 @@ def cases(ctx):
     add("recursion", "LIMIT := 1\n*=0x008000\n.macro zz_r(d) {\n.if LIMIT {\n.for zz_i := 0, 2 {\nzz_r(d)\n}\n}\n}\nzz_r(0)\n")
     add("recursion", "*=0x008000\n.macro zz_r(d) {\n.if d {\nzz_r(d)\nzz_r(d)\nzz_r(d)\n} else {\nzz_r(1)\nzz_r(1)\n}\n}\nzz_r(0)\n")
     add("recursion", "*=0x008000\n.macro zz_r(c) {\n{{c}}\n}\n.macro zz_q() {\nzz_r({\nzz_q()\nzz_q()\n})\n}\nzz_q()\n")
+    # a missing include, the including source named by an absolute / nested / odd path (the name is only a label for
+    # the string API, but an include lookup relative to it must still end)
+    for fname in ("/zz_abs/dir/main.s", "/main.s", "sub/dir/main.s", "./main.s", "../main.s", "main.s"):
+        out.append({"kind": "missing-include", "rom": "low", "fname": fname, "files": {}, "count_empty": True,
+                    "src": "*=0x008000\nnop\n.include 'zz_missing_inc.s'\nrts\n", "spec": {"t": "c15"}})
+        out.append({"kind": "missing-include", "rom": "low", "fname": fname, "files": {}, "count_empty": True,
+                    "src": "*=0x008000\n.incbin 'zz_missing.bin'\n.table 'zz_missing.tbl'\n", "spec": {"t": "c15"}})
     add("cyclic-include", "*=0x008000\n.include 'a.s'\n", {"a.s": ".include 'b.s'\n", "b.s": ".include 'a.s'\n"})
     add("self-include", "*=0x008000\n.include 'prog.s'\n", {"prog.s": "*=0x008000\n.include 'prog.s'\n"})
     add("loop", "*=0x008000\n.for i := 0, 300 {\n.db i\n}\n")
